@@ -324,8 +324,9 @@ def _work(job: t.Tuple[str, int, int]) -> evid.Local:
                     rec(check_tag(cls, cons, num), {"fam": "tag", "cls": cls, "num": str(num), "constructed": cons}, 3)
     elif fam == "tags-long":
         # multi-octet identifiers together with long-form lengths (each alone is covered above)
-        for num in (30, 31, 32, 127, 128, 1024, 16383, 16384, 2**21, 2**28):
-            for n in (127, 128, 255, 256, 1024, 65536):
+        # (consecutive lengths for the same identifier, in one process: a header cached by its first octets would show)
+        for num in (30, 31, 32, 127, 128, 1024, 16383, 16384, 2**21 - 1, 2**21, 2**28, 2**35, 2**63):
+            for n in (127, 128, 129, 130, 255, 256, 257, 1024, 65535, 65536, 65537, 65536 + 256):
                 for cls in (1, 2, 3):
                     for cons in (False, True):
                         rec(check_tag_len(cls, cons, num, n), {"fam": "taglen", "cls": cls, "num": str(num), "constructed": cons, "n": n}, 3)
